@@ -124,4 +124,31 @@ theorem decode_specIndex (chunks : List (List (Ent α))) (hne : ∀ x ∈ chunks
       simp only [specIndex, blocksSpec, List.head?_cons, Option.map_some, Option.getD_some]
       rw [decode_step c hc (headStarts d) _ off, ih']
 
+/-- a page without repetition is the special case "every level starts a row": the index decoded from what
+    `compress_levels` would store is `MiniBlockRepIndex::default_from_chunks` -/
+theorem blocksSpec_allStart (chunks : List (List (Ent α))) (hne : ∀ x ∈ chunks, x ≠ [])
+    (hall : ∀ x ∈ chunks, ∀ e ∈ x, e.start = true) (off : Nat) :
+    blocksSpec chunks off = defaultRepIndex (chunks.map List.length) off := by
+  have hsc : ∀ x ∈ chunks, startCount x = x.length := by
+    intro x hx
+    unfold startCount
+    rw [List.filter_eq_self.mpr (fun e he => hall x hx e he)]
+  have hhs : ∀ x ∈ chunks, headStarts x = true := by
+    intro x hx
+    cases hxe : x with
+    | nil => exact absurd hxe (hne x hx)
+    | cons e t => simp [headStarts, hall x hx e (by simp [hxe])]
+  induction chunks generalizing off with
+  | nil => rfl
+  | cons c rest ih =>
+    have ih' := fun o => ih (fun x hx => hne x (by simp [hx])) (fun x hx => hall x (by simp [hx])) o
+      (fun x hx => hsc x (by simp [hx])) (fun x hx => hhs x (by simp [hx]))
+    cases rest with
+    | nil => simp [blocksSpec, defaultRepIndex, hsc c (by simp), hhs c (by simp)]
+    | cons d t =>
+      simp only [blocksSpec, List.map_cons, defaultRepIndex, hsc c (by simp), hhs c (by simp), hhs d (by simp),
+        Bool.not_true]
+      rw [ih' (off + c.length)]
+      simp [defaultRepIndex]
+
 end LanceModel.C25
